@@ -1,6 +1,8 @@
 """C08 over selector sources that keep the dimensions of a multi-dimensional array (harness/c08extra.go) — an
-OBSERVATIONAL / METAMORPHIC stage on the real code, for FROM paths the engine model cannot name (its paths are key
-paths): `n[keep=>each]`, `grid[keep=>each:0]`, kept slices, a kept selection continued with `::`, next to plain keys.
+OBSERVATIONAL / METAMORPHIC stage on the real code: `n[keep=>each]`, `grid[keep=>each:0]`, kept slices, a kept
+selection continued with `::`, next to plain keys.  (Since round 5 such sources are ALSO model-vs-code cases: the
+engine model's FROM carries the C09 selector syntax tree, Model/Ast.v FSel, stream harness/r5_c08.go; this stage
+stays as the independent statement of the property on the real code, with the library's own reader as the oracle.)
 For every source the library's own reader resolves to an array of arrays and every generated filter/projection query:
 the result has the nesting of the source, each innermost result equals the query run directly on that inner array,
 and the query over `mix=>source` equals the concatenation of the innermost results."""
@@ -46,5 +48,8 @@ def extra(ctx):
 def install(CONFIG, EXTRA_TB, ASSUME):
     CONFIG.setdefault("C08", {}).setdefault("stages", []).append(extra)
     EXTRA_TB.setdefault("C08", []).append(
-        "selector sources with keep=> / [each] / `::` in FROM are outside the engine model (key paths only): for them C08 is OBSERVED on the real code "
-        "(stage kept-dimension-sources: nesting, per-inner equality, mix = concatenation), with genql.ExecReader on the un-mixed selector as the oracle of what the source resolves to")
+        "selector sources with keep=> / [each] / ranges / pipes / `::` / fn=> in FROM are resolved in the engine model by the C09 selector model "
+        "(Model/Ast.v FSel, Model/SelReader.v; stream r5_c08.go): the model is trusted to mirror ExecReader as far as the C09 correspondence shows; "
+        "a selector whose first step reads a registered CTE name or `<-` is reported out of model (the reader would meet a thunk, which the value type "
+        "does not have); independently, C08 is OBSERVED on the real code for such sources (stage kept-dimension-sources: nesting, per-inner equality, "
+        "mix = concatenation), with genql.ExecReader on the un-mixed selector as the oracle of what the source resolves to")
